@@ -30,6 +30,9 @@ let site_name (s : BinNums.coq_N) : string =
   | 117 -> "remux.(*rtmp2MpegtsFilter).Push:index"
   | 118 -> "remux.(*Rtmp2MpegtsRemuxer).feedAudio:index"
   | 119 -> "remux.(*Rtmp2RtspRemuxer).remux:slice"
+  | 120 -> "rtprtcp.IsAvcBoundary:index"
+  | 121 -> "rtprtcp.IsHevcBoundary:index"
+  | 122 -> "remux.(*Rtmp2RtspRemuxer).FeedRtmpMsg:explicit"
   | n -> Printf.sprintf "site%d:?" n
 
 let panic_tok s = "panic@" ^ site_name s
@@ -165,7 +168,7 @@ let bcast fx cfgtok evtok =
   (* the GOP caches exist whatever the enable flags; Feed is only called when the protocol is enabled *)
   let cfg = { MediaBroadcast.gc_rtmp = on "re"; gc_rtmp_gop = get "rg" > 0; gc_flv = on "fe"; gc_flv_gop = get "fg" > 0;
               gc_ts = on "te" || on "he" || on "rm"; gc_rtsp = on "se";
-              gc_dummy = (if on "da" then Some (n_of_int (get "dw")) else None); gc_add = false;
+              gc_dummy = (if on "da" then Some (n_of_int (get "dw")) else None); gc_add = on "ak";
               gc_rtsp_wait = on "wk" } in
   let evs = Stdlib.List.map (fun f ->
       match Stdlib.List.hd f with
